@@ -229,9 +229,11 @@ def run_all(scn, ref, EoN, modes=("sep", "joint", "arr", "perc", "fast", "gin"))
         kw2["initial_recovereds"] = list(R0)
 
         def decider(kind, info, pop, probs_):
+            # steer a choice among nodes towards the scenario's seed; any other way of drawing the index case
+            # (randrange over positions, shuffles ...) is left alone and the run is only judged if the seed matches
             try:
                 return list(pop).index(I0[0])
-            except ValueError:
+            except (ValueError, TypeError):
                 return 0
         nm = "fast_nonMarkov_SIR(default index case)"
         try:
